@@ -59,6 +59,11 @@ func (m *memStream) feed(b []byte) {
 	}
 }
 
+// feedRaw queues a chunk as it is, an empty one included (a read that completes with no bytes and no error).
+func (m *memStream) feedRaw(b []byte) {
+	m.in = append(m.in, append([]byte(nil), b...))
+}
+
 func (m *memStream) take(b []byte) int {
 	n := copy(b, m.in[0])
 	if n == len(m.in[0]) {
